@@ -38,6 +38,7 @@ type icStack struct {
 	dispatch           []bool // per statement interceptor: may parse the statement itself through the public Parse*Statement API
 	coin               *rand.Rand
 	viaPlugin          bool
+	plugMask           uint64 // with viaPlugin: bit i set = the i-th installed interceptor goes through Install(plugin), else directly
 	interleave         []byte // installation order of kinds, e.g. "tsetse"
 	stageAt            int    // interceptors interleave[stageAt:] are installed only after a first parser was built from the builders
 }
@@ -109,7 +110,7 @@ func (s *icStack) build(m Mode, run *icRun) (*parser.Builder, func()) {
 				}
 				return next()
 			}
-			if s.viaPlugin {
+			if s.viaPlugin && s.plugMask>>(uint(ti+si+ei)%64)&1 == 1 {
 				pb.Install(func(b *parser.Builder) { b.UseStatementInterceptor(f) })
 			} else {
 				pb.UseStatementInterceptor(f)
@@ -139,7 +140,7 @@ func (s *icStack) build(m Mode, run *icRun) (*parser.Builder, func()) {
 				run.events[pos].precAfter, _ = hookExprPrec(p)
 				return res
 			}
-			if s.viaPlugin {
+			if s.viaPlugin && s.plugMask>>(uint(ti+si+ei)%64)&1 == 1 {
 				pb.Install(func(b *parser.Builder) { b.UseExpressionInterceptor(f) })
 			} else {
 				pb.UseExpressionInterceptor(f)
@@ -238,6 +239,12 @@ func dispatchPrefix(p *parser.Parser) ast.Expression {
 
 func randStack(r *rand.Rand, allowReentrant bool) *icStack {
 	s := &icStack{nTok: r.IntN(9), nStmt: r.IntN(9), nExpr: r.IntN(9), viaPlugin: r.IntN(2) == 0}
+	// directly installed interceptors and plugin-installed ones are mixed (installation order is what counts): all
+	// through plugins on a third of the plugin stacks, a random mixture otherwise
+	s.plugMask = ^uint64(0)
+	if r.IntN(3) > 0 {
+		s.plugMask = r.Uint64()
+	}
 	s.reentrant = make([]bool, s.nExpr)
 	s.dispatch = make([]bool, s.nStmt)
 	if allowReentrant {
@@ -266,7 +273,7 @@ func randStack(r *rand.Rand, allowReentrant bool) *icStack {
 }
 
 func (s *icStack) String() string {
-	return fmt.Sprintf("tok=%d stmt=%d expr=%d reentrant=%v dispatch=%v plugin=%v order=%s|%s", s.nTok, s.nStmt, s.nExpr, s.reentrant, s.dispatch, s.viaPlugin, string(s.interleave[:s.stageAt]), string(s.interleave[s.stageAt:]))
+	return fmt.Sprintf("tok=%d stmt=%d expr=%d reentrant=%v dispatch=%v plugin=%v order=%s|%s", s.nTok, s.nStmt, s.nExpr, s.reentrant, s.dispatch, fmt.Sprintf("%v/%x", s.viaPlugin, s.plugMask&0xffffff), string(s.interleave[:s.stageAt]), string(s.interleave[s.stageAt:]))
 }
 
 func plainTokens(src string) []token.Token {
@@ -375,6 +382,41 @@ func checkOneInterceptedParse(t *fw.T, src string, rd *gen.Rendered, s *icStack,
 			if t.Guard("compile", wit, func() { x, y = c.Compile(base.Prog).Code, c.Compile(run.out.Prog).Code }) && x != y {
 				t.Violate("transparency-output", key+"/"+c.String(), "installing interceptors changes the "+c.String()+" output", wit())
 				return false
+			}
+		}
+	}
+	if s.nTok > 0 && rep <= 0 {
+		// the lexer driven directly: every request for a token - also the requests at and after end of input - goes
+		// through every token interceptor exactly once (a plugin may turn end-of-input into synthetic tokens)
+		nreq := len(plainTokens(src)) + 3
+		before := len(run.events)
+		okLex := t.Guard("lexer with token interceptors", wit, func() {
+			lx := pb.LexerBuilder.Build(src)
+			for i := 0; i < nreq; i++ {
+				lx.NextToken()
+			}
+		})
+		per := map[int]int{}
+		for _, e := range run.events[before:] {
+			if e.kind == 't' {
+				per[e.idx]++
+			}
+		}
+		run.events = run.events[:before]
+		if len(run.tokens) > 0 {
+			// run.tokens collects what interceptor #0 saw: drop what the direct drive added
+			cut := len(run.tokens) - per[0]
+			if cut >= 0 {
+				run.tokens = run.tokens[:cut]
+			}
+		}
+		if okLex {
+			t.Count("lexer_requests_through_interceptors", nreq)
+			for i := 0; i < s.nTok; i++ {
+				if per[i] != nreq {
+					t.Violate("token-once", "per request", fmt.Sprintf("token interceptor #%d ran %d times for %d token requests (%d of them at or after end of input) on %q", i, per[i], nreq, 3, clip(src, 160)), wit())
+					return false
+				}
 			}
 		}
 	}
